@@ -82,7 +82,7 @@ _FPAT = [
     [-2.5, -1.0, 0.0, 1.0, 2.5, 0.5, 3.0, -0.25, 7.0, -6.0, 1.5, 4.0],
     [0.0],
     [1.0, -1.0],
-    [1e4, -2.5, 3.0, -1e4, 0.5],
+    [1e5, -2.5, 0.1, -1e5, 0.3],
     [-3.0, -0.5, -7.0],
 ]
 _IPAT = [[-2, -1, 0, 1, 2, 3, 7, -5], [0], [1, -1], [10000, -3, 4], [-3, -1, -7]]
